@@ -40,7 +40,7 @@ WITNESSES = ['WitnessManyUpdates', 'WitnessReverseBlocks', 'WitnessUnjudgedPick'
 
 TIER = {
     # b2: (# two-mode libraries sampled, # three-mode libraries sampled, paths); b3: scenarios per pair, pairs
-    'quick': dict(b2_two=230, b2_three=330, b2_paths=1, b3_per_pair=24, b3_pairs='quick'),
+    'quick': dict(b2_two=230, b2_three=330, b2_paths=1, b3_per_pair=25, b3_pairs='quick'),
     'thorough': dict(b2_two=1176, b2_three=5000, b2_paths=3, b3_per_pair=70, b3_pairs='thorough'),
 }
 
@@ -83,13 +83,13 @@ CD_WIDE = [(2000, 0.1), (8000, 0.6), (30000, 1.5), (70000, 4.0)]
 CD_NEGLOW = [(-20000, 0.5), (0, 0.0), (30000, 1.5), (70000, 4.0)]      # explicit negative lower boundary
 
 
-def b2_mode_json(f, k, worst, margin, tabs):
+def b2_mode_json(f, k, worst, margin, tabs, listing='asc'):
     """model mode [b, r, f, d] -> equipment JSON; worst: measured pristine worst channel of the physical mode;
     tabs = (CD table holding the path's CD, CD table the path's CD lies outside of)"""
     baud = (32e9, 64e9)[f['b']]
     inf_pen = f['d'] == 9
     d = 3 if inf_pen else f['d']                  # without its penalty the mode would be 3 dB above the threshold
-    pens = penalties_json(cd=tabs[1] if inf_pen else tabs[0])
+    pens = penalties_json(cd=tabs[1] if inf_pen else tabs[0], listing=listing)
     min_spacing = (37.5e9, 75e9)[f['b']] if f['f'] else 100e9
     return base_mode(f'm{k}', baud, 100e9 * (f['r'] + 1), min_spacing, osnr=worst - d - margin, tx_osnr=40.0,
                      penalties=pens)
@@ -140,8 +140,9 @@ def run_b2(chk, emitted, benches):
                 idx = list(range(len(e['lib'])))
                 if order:
                     idx.reverse()
+                # every other library lists its penalty points from the largest boundary down
                 modes = [b2_mode_json(e['lib'][i], i + 1, worst[(e['lib'][i]['b'], e['lib'][i]['d'] == 9)], margin,
-                                      tabs) for i in idx]
+                                      tabs, listing=('asc', 'desc')[(ci // 3) % 2]) for i in idx]
                 pos = {i + 1: k + 1 for k, i in enumerate(idx)}   # model index -> position in the file
                 eq = bench.equipment(modes, None)
                 kinds = [None]
@@ -232,8 +233,11 @@ def measured_tables(meas):
     return t
 
 
-def physical_library(kind, spacing, meas, rng):
-    """modes without thresholds.  Equalisation offset is a function of the baud rate (domain restriction)."""
+def physical_library(kind, spacing, meas, rng, listing='asc'):
+    """modes without thresholds.  Equalisation offset is a function of the baud rate (domain restriction).
+    listing: order in which the points of the penalty tables are written in the file"""
+    def penalties_json(**kw):                       # every table of this library is written in the chosen order
+        return fu.penalties_json(listing=listing, rng=rng, **kw)
     wide = lambda cd='wide': penalties_json(cd=CD_TABS[cd], pmd=PMD_TAB, pdl=PDL_TAB)   # noqa
     cd_lo = meas['f'][0]
     short = penalties_json(cd=[(max(1, int(cd_lo * 0.3)), 0.2), (max(2, int(cd_lo * 0.7)), 0.5)] if cd_lo > 10
@@ -330,7 +334,7 @@ def scenario_trace(bench, name, src, dst, spacing, modes_json, fixed, bidir, mar
         tm = dict(br=int(round(m['baud_rate'] / 1e6)), rate=int(round(m['bit_rate'] / 1e6)), fits=int(fits),
                   thr=udb(m['OSNR'] + sys_margin), tx=fu.inv9(m['tx_osnr']), pf=fu.NOT_RUN, pr=fu.NOT_RUN)
         for imp, short in fu.SHORT.items():
-            tm[short] = fu.table_int(m['penalties'].get(imp), imp)
+            tm[short] = fu.points_int(mj.get('penalties'), imp)      # as written in the file, not as loaded
         if fits:
             pf = bench.pristine(src, dst, 0, spacing, mj)
             raw['pristine'][(k, 0)] = pf
@@ -388,7 +392,7 @@ def deviations(tr, raw, acc):
         acc['max_nup'] = max(acc['max_nup'], e['nup'])
         for short in ('cd', 'pmd', 'pdl'):
             for v, obs in zip(e[short], e['p' + short]):
-                dev = _band_dev(m[short], v, obs)
+                dev = _band_dev(fu.table_of_points(m[short]), v, obs)
                 if dev is not None:
                     acc['penalty'] = max(acc['penalty'], dev)
     worst = 0.0
@@ -405,7 +409,7 @@ def build_b3(chk, benches):
     traces, meta = [], {}
     acc = dict(composition=0, penalty=0, max_nup=0)
     kinds = ['plain', 'offset', 'cdshort', 'ties', 'groups3', 'nofit', 'shuffled', 'offset2', 'cdsteep', 'cdpartial',
-             'cdlow']
+             'cdlow', 'listing']
     # plans taken first on every pair: the table-end / per-channel kinds in each request shape (None: drawn at random)
     plans = [(k, None, None, None) for k in kinds]
     plans += [(k, fx, True, ref) for k in ('cdpartial', 'cdsteep', 'cdlow') for fx, ref in ((False, 'fwdpass'), (True, 'fwdpass'))]
@@ -418,7 +422,10 @@ def build_b3(chk, benches):
         for si in range(cfg['b3_per_pair']):
             kind, p_fixed, p_bidir, p_ref = plans[si] if si < len(plans) else (rng.choice(kinds), None, None, None)
             spacing = 75e9 if kind != 'nofit' else rng.choice([75e9, 50e9, 25e9])
-            lib = physical_library(kind, spacing, meas, rng)
+            # order in which the penalty points are written: ascending on the first pass over the kinds, then any
+            listing = 'desc' if kind == 'listing' else 'asc' if si < len(kinds) else \
+                rng.choice(['asc', 'desc', 'shuffled', 'mixed'])
+            lib = physical_library(kind, spacing, meas, rng, listing)
             n = len(lib)
             pattern = si % 7
             if pattern == 0:
@@ -448,6 +455,7 @@ def build_b3(chk, benches):
             traces.append(tr)
             meta[name] = dict(history_deviation_db=round(hist_dev, 6), bench=bname, src=src, dst=dst, kind=kind,
                               spacing=spacing, fixed=fixed, bidir=bidir, reference=reference, measured_cd=meas,
+                              table_listing=listing,
                               deltas_db=deltas, sys_margins=sys_margin, exception=exc, outcome=tr['out'],
                               offsets=sorted({(m['baud_rate'], m.get('equalization_offset_db', 0)) for m in lib}),
                               modes=[dict(format=m['format'], OSNR=m['OSNR'], min_spacing=m['min_spacing'],
